@@ -37,7 +37,8 @@ TRIGGERS = ("server", "capbusy", "capoverlap")
 RULE = (
     "each case is a generated probe model (1-4 node targets among plain handler / generator handler with in-flight "
     "processes / repo Server behind its queue / holder of a repo Resource, each with an identical-traffic twin; an "
-    "optional 2-3 node Network plus twin Network with a tagged probe on every link every delta) and a generated repo "
+    "optional 2-3 node Network plus twin Network (links added per direction or with add_bidirectional_link, plain or from "
+    "the condition factories, unique or shared display names) with a tagged probe on every link every delta) and a generated repo "
     "FaultSchedule of CrashNode/PauseNode/NetworkPartition(sym/asym)/InjectLatency/InjectPacketLoss/ReduceCapacity "
     "faults (0-10; windows disjoint, overlapping, nested, identical, adjacent, past the horizon, permanent crash; handles "
     "cancelled before construction / after construction / during the run / never) passed to Simulation(fault_schedule=); "
